@@ -165,6 +165,10 @@ class World:
                 ("calculation", "emodulus viscosity model", ["herold-2017", "buyukurganci-2022"]),
                 ("calculation", "crosstalk fl21", [0.0, 0.05, 0.2]),
                 ("calculation", "crosstalk fl12", [0.0, 0.1]),
+                ("calculation", "crosstalk fl31", [0.0, 0.03]),
+                ("calculation", "crosstalk fl13", [0.0, 0.07]),
+                ("calculation", "crosstalk fl23", [0.0, 0.02]),
+                ("calculation", "crosstalk fl32", [0.0, 0.04]),
                 ("imaging", "pixel size", [0.2, 0.34, 0.5]),
                 ("imaging", "frame rate", [1000.0, 2000.0, 4000.0]),
                 ("setup", "channel width", [20.0, 30.0]),
